@@ -38,7 +38,7 @@ pub fn run_history(case: &HistoryCase, monitors: &mut [&mut dyn Monitor], l: &mu
             Did::Ok => {
                 stats.ops_ok += 1;
                 match op.effective() {
-                    Op::Swap { .. } | Op::SwapBack { .. } => {
+                    Op::Swap { .. } | Op::SwapBack { .. } | Op::SwapExact { .. } => {
                         stats.swaps_ok += 1;
                         if let Some(o) = &r.outcome {
                             stats.crossings += o.steps.iter().filter(|s| s.crossed_initialized_tick.is_some()).count() as u32;
@@ -112,6 +112,7 @@ pub fn op_name(op: &Op) -> &'static str {
         Op::Reposition { .. } => "reposition",
         Op::Swap { .. } => "swap",
         Op::SwapBack { .. } => "swap_back",
+        Op::SwapExact { .. } => "swap_exact_budget",
         Op::UpdateFees { .. } => "update_fees",
         Op::CollectFees { .. } => "collect_fees",
         Op::CollectProtocolFees { .. } => "collect_protocol_fees",
